@@ -193,7 +193,9 @@ func init() {
 				}
 				r.Check(okU, "split-utf8", fmt.Sprintf("a piece is not valid UTF-8 (unit %v max %d)", unit, maxv), cv)
 			}
-			if (unit == rag.SizeUnitCharacters || unit == rag.SizeUnitTokens) && maxv*q/p >= 200 && spacedEvery50(text) {
+			// the bound is claimed for limits of at least 200 characters (a token limit: 200 characters' worth; the
+			// token ratio p/q says nothing about a limit given in characters)
+			if ((unit == rag.SizeUnitCharacters && maxv >= 200) || (unit == rag.SizeUnitTokens && maxv*q/p >= 200)) && spacedEvery50(text) {
 				okB := true
 				calc := rag.NewSizeCalculatorWithConfig(cfg)
 				for _, s := range pieces {
